@@ -28,6 +28,11 @@ def run(ctx, res):
     from . import C17
     res.rules_run.append("C16.map (SerializeMap::serialize_key / serialize_value / end: ordinary entries are inserted in order; number mode only for an empty object + the private token) = C17.handshake")
     C17.handshake_rule(ctx, res, rule="C16.map", dedup=False)
+    # "converting serde_json's rendering of the datum into a Value and deserializing that yields the datum as well": when the
+    # rendering is a serde_json::Value, the conversion is Value::from_serde_json / From<serde_json::Value>
+    from . import C18
+    res.rules_run.append("C16.render (Value::from_serde_json maps every serde_json variant to the same-named variant: scalars unchanged, numbers only through the number crate's From impl - one unconditional path -, every item and entry converted recursively in order) = C18.map, that direction")
+    C18.map_rule(ctx, res, rule="C16.render", directions=("from_serde_json",))
     res.notes.append("not decided: bit-exact float and integer round trip, and equality with serde_json::to_value on numbers (json-number / ryu / lexical)")
     res.trusted += ["serde's derive and blanket impls (Serialize for bool / &T, Deserialize for primitives)", "json-number's From<integer> / TryFrom<float> / Deserializer for NumberBuf", "serde_json's documented data-model mapping (table in this file)"]
 
@@ -595,7 +600,27 @@ def mapkey_rule(ctx, res):
                 res.count("mapkey_cases")
             except Undecided as e:
                 res.violation(rule, "%s/%s/undecided" % (key, mode), "while interpreting: %s" % e)
-    res.floor(rule, "mapkey_cases", 20)
+    # wrappers: a newtype struct or an Option around a key is transparent — the inner type is deserialized from the *same* key
+    # deserializer (so an integer inside a newtype key is still parsed from the key text)
+    for meth, visit, nargs in (("deserialize_newtype_struct", "visit_newtype_struct", 3), ("deserialize_option", "visit_some", 2)):
+        key = "%s/%s" % (rule, meth)
+        try:
+            inst = shape.find_inst(P, r"^<json_syntax::serde::de::MapKeyDeserializer as .*Deserializer<'_>>::%s::<serde_roots::Probe>$" % meth)
+            sh = shape.Shape(P)
+            sh.cut(r"^<serde_roots::Probe as .*Visitor<'_>>::visit_", "visit", ret=lambda it, st, c, a: Agg(shape.ret_ty(it, c), 0, (Top(None, "visited"),)))
+            kty = inst["locals"][1]
+            me = Agg(kty, 0, (Top(None, "the-key"),))
+            args = [me, Agg(None, 0, ())] if nargs == 2 else [me, Top(None, "name"), Agg(None, 0, ())]
+            outs = sh.run(inst, args)
+            ok = len(outs) == 1 and outs[0].outcome[0] == "return"
+            vs = [e for o in outs for e in shape.events(o) if e[0] == "visit"]
+            ok = ok and len(vs) == 1 and VISIT.search(vs[0][3]).group(1) == visit and vs[0][1][1] == me
+            check(res, ok, rule, key, "%s on a map key must hand the key deserializer itself to %s; got %r" % (meth, visit, [(VISIT.search(e[3]).group(1), repr(e[1][1])[:60]) for e in vs]),
+                  sample={"key_method": meth, "visits": visit, "with": "the same key deserializer"})
+            res.count("mapkey_cases")
+        except Undecided as e:
+            res.violation(rule, key + "/undecided", "while interpreting: %s" % e)
+    res.floor(rule, "mapkey_cases", 22)
 
 
 # ---- enums -----------------------------------------------------------------------------------------------------------------------------------------
